@@ -270,6 +270,38 @@ pub fn case_strategy(tier: Tier) -> BoxedStrategy<BarCase> {
         .boxed()
 }
 
+pub fn decode_bop(u: &mut FuzzInput, cols: usize) -> BOp {
+    match u.n(24) {
+        0 | 1 | 2 => BOp::Tick,
+        3 | 4 => BOp::Inc(u.n(4) as u64),
+        5 => BOp::SetPos(u.n(100) as u64),
+        6 | 7 | 8 | 9 => BOp::SetMessage(u.text(cols)),
+        10 | 11 => BOp::SetPrefix(u.line(cols)),
+        12 | 13 => BOp::SetStyle(decode_stpl(u)),
+        14 => BOp::SetLength(u.n(1000) as u64),
+        15 | 16 | 17 => BOp::Println(u.text(cols)),
+        18 => BOp::Suspend((0..u.n(2)).map(|_| u.line(cols)).collect()),
+        19 => BOp::Reset,
+        20 => BOp::Finish,
+        21 => BOp::FinishWithMessage(u.text(cols)),
+        22 => BOp::FinishAndClear,
+        23 => BOp::Abandon,
+        _ => BOp::SetTabWidth(u.n(11) as u8),
+    }
+}
+
+pub fn decode_case(u: &mut FuzzInput) -> BarCase {
+    let rows = 1 + u.n(11) as u8;
+    let cols = 1 + u.n(39) as u8;
+    let len = if u.n(4) == 0 { None } else { Some(u.n(99) as u64) };
+    let tpl = decode_stpl(u);
+    let mut ops = vec![];
+    while !u.empty() && ops.len() < 40 {
+        ops.push(decode_bop(u, cols as usize));
+    }
+    BarCase { rows, cols, len, tpl, ops }
+}
+
 pub fn property() -> Property {
     let w = default_workers();
     Property {
@@ -290,6 +322,7 @@ pub fn property() -> Property {
             signature,
             essential: &["shrink", "grow", "wrap", "exact_multiple_of_width", "empty_first_line_frame", "text_only_draw", "frame_after_text_only_draw", "clear", "reset", "log_wraps"],
             workers: w,
+            decode: Some(decode_case),
         })],
     }
 }
